@@ -4,6 +4,7 @@
  * lengths, crafted Poly1305 inputs.
  *   hash_driver <seed> <maxlen> <step> <out.ndjson>                                            */
 #include "common.h"
+#include "poly_keys.h"
 
 static vrng R;
 #define MAXD 8
@@ -93,6 +94,11 @@ int main(int argc, char **argv) {
           unsigned v = (unsigned) (0xfc + d); m[16] = (unsigned char) v; if (v > 0xff) { /* d > 3 never */ } poly_case(m, 32, k); poly_case(m, 33, k); }
       memset(k, 0, 32); k[16] = 5; memset(m, 0xab, 64); poly_case(m, 64, k);
       for (int t = 0; t < 8; t++) { vrng_bytes(&R, k, 32); memset(k, 0xff, 16); memset(m, 0xff, 160); poly_case(m, 16 * (size_t) (1 + t), k); } }
+    /* keys whose precomputed powers r^2 / r^4 (what the vectorised backends store) have a limb at a boundary - harness/poly_keys.h,
+     * chosen by tools/polykeys.c; 17 bytes is the shortest message that uses r^2, 96 the shortest one-shot message that uses r^4 */
+    { unsigned char k[32]; static const size_t L[12] = { 17, 96, 200, 0, 16, 32, 64, 95, 97, 128, 160, 257 }; int nl = step <= 3 ? 12 : 3;
+      for (int i = 0; POLYKEYS[i]; i++) { for (int b = 0; b < 16; b++) { unsigned v; sscanf(POLYKEYS[i] + 2 * b, "%2x", &v); k[b] = (unsigned char) v; }
+        vrng_bytes(&R, k + 16, 16); for (int j = 0; j < nl; j++) { vrng_bytes(&R, m, L[j]); poly_case(m, L[j], k); } } }
     /* verify functions: every single-bit flip of a 32-byte tag must be rejected */
     { unsigned char k[32], t[64], msg[50]; vrng_bytes(&R, k, 32); vrng_bytes(&R, msg, 50); int rej = 0, n = 0;
       crypto_auth(t, msg, 50, k); for (int b = 0; b < 256; b++) { t[b / 8] ^= (unsigned char) (1 << (b % 8)); rej += crypto_auth_verify(t, msg, 50, k) == -1; n++; t[b / 8] ^= (unsigned char) (1 << (b % 8)); }
